@@ -295,3 +295,17 @@ pub fn try_extract_signature_id_from_field(
         _ => None,
     }
 }
+
+#[cfg(feature = "verif-hooks")]
+impl LuaPropertyIndex {
+    /// verif hook H1: entry counts of every map of this index
+    pub fn verif_sizes(&self, out: &mut Vec<(String, usize)>) {
+        out.push(("property.properties".into(), self.properties.len()));
+        out.push(("property.property_owners_map".into(), self.property_owners_map.len()));
+        out.push(("property.in_filed_owner".into(), self.in_filed_owner.len()));
+        out.push((
+            "property.in_filed_owner.sum".into(),
+            self.in_filed_owner.values().map(|v| v.len()).sum(),
+        ));
+    }
+}
